@@ -418,7 +418,7 @@ def block_td(ctx, tm, psi):
     # evaluated at (time already covered inside the call) + c_i * tau
     rk = str(rng.choice(EMBEDDED))
     rtol = 1e-5
-    spec = dict(kind="tdrk", rk=rk, adaptive=True, adaptive_rtol=rtol, guess_dt=T / 6)
+    spec = dict(kind="tdrk", rk=rk, adaptive=True, adaptive_rtol=rtol, guess_dt=T / 3)
     nm = name_of(spec)
     try:
         T2 = 1.5 * T
@@ -511,10 +511,15 @@ def block_adaptive(ctx, tm, psi):
         spec = dict(c, adaptive=True, adaptive_rtol=rtol, guess_dt=g)
         nm = name_of(spec)
         try:
-            one = evolve_n(psi, mpo, T, 1, spec, big)
-            two = evolve_n(psi, mpo, T, 2, spec, big)
+            with time_limit(40.0):
+                one = evolve_n(psi, mpo, T, 1, spec, big)
+                two = evolve_n(psi, mpo, T, 2, spec, big)
             e1 = float(np.linalg.norm(dense_state(one) - ref))
             e2 = float(np.linalg.norm(dense_state(two) - ref))
+        except CallTimeout:
+            # a 3-4 site call normally takes well under a second: the step controller does not terminate
+            run.violation(f"{nm}:adaptive:no-result-within-40s", replay_base(tm, v0, spec, T=T))
+            continue
         except Exception as e:
             run.violation(f"{nm}:adaptive:exception:{exc_sig(e)}", replay_base(tm, v0, spec, T=T, error=repr(e)))
             continue
